@@ -175,6 +175,85 @@ def run(ctx):
         ctx.sample(desc, cap=8)
     core.pmap(one, jobs)
 
+    # ---- several operands in one invocation (thorough): every operand must end in a safe state of its own
+    if not q:
+        parts = [gen.textlike(rnd, 200000), gen.uniform(rnd, 150000), b'', gen.runs(rnd, 260000)]
+        comps = [core.run([hook, '-1', '-n', '2'], stdin=p, timeout=120).out for p in parts]
+        mcases = [dict(direction='compress', args=['-1', '-n', '2'], ins=parts, outs=comps, names=['m%d' % i for i in range(4)], suffix=('', '.bz2')),
+                  dict(direction='decompress', args=['-d', '-n', '3'], ins=comps, outs=parts, names=['m%d.bz2' % i for i in range(4)], suffix=('.bz2', ''))]
+
+        def mexec(mc, rule):
+            d = core.tmpdir()
+            for n, c in zip(mc['names'], mc['ins']):
+                with open(os.path.join(d, n), 'wb') as f:
+                    f.write(c)
+            r, cnt = shim.run(lb, mc['args'] + mc['names'], rule=rule, cwd=d, timeout=180)
+            sts = []
+            for n, i_, o_ in zip(mc['names'], mc['ins'], mc['outs']):
+                on = n + '.bz2' if mc['direction'] == 'compress' else n[:-4]
+                sts.append(classify(d, n, on, i_, o_))
+            names = sorted(os.listdir(d))
+            shutil.rmtree(d, ignore_errors=True)
+            return r, cnt, sts, names
+        mjobs = []
+        for mi, mc in enumerate(mcases):
+            r0, cnt, sts, names = mexec(mc, None)
+            ctx.ev()
+            if r0.rc != 0:
+                ctx.violation('baseline:multi', 'un-injected multi-operand run ended %s' % r0.status, None, dict(argv=['lbzip2'] + mc['args'] + mc['names']))
+                continue
+            for kind in shim.KINDS:
+                for pos in range(1, cnt[kind] + 1):
+                    if kind in ('read', 'write') and pos % 3:
+                        continue
+                    for en in ERRS[kind][:1]:
+                        mjobs.append((mi, kind, pos, 'err', en))
+                    for sname, sig in SIGS:
+                        mjobs.append((mi, kind, pos, rnd.choice(['sigpre', 'sigpost']), sname))
+
+        def mone(j):
+            mi, kind, pos, action, arg = j
+            mc = mcases[mi]
+            rule = '%s:%d:err:%d' % (kind, pos, getattr(errno, arg)) if action == 'err' else '%s:%d:%s:%d' % (kind, pos, action, dict(SIGS)[arg])
+            r, cnt, sts, names = mexec(mc, rule)
+            ctx.ev()
+            if cnt['fired'] < 1:
+                return
+            desc = dict(direction=mc['direction'], operands=len(mc['names']), call=kind, position=pos, action=action, arg=arg, outcome=r.status,
+                        states=[(s['input'], s['output'].split('(')[0]) for s in sts])
+            info = dict(desc, argv=['lbzip2'] + mc['args'] + mc['names'], env={'IOSHIM_RULE': rule}, variant='plain+ioshim')
+            if r.timed_out:
+                if r.deadlock:
+                    ctx.violation('deadlock:multi:%s' % kind, 'hang %s' % desc, {'gdb.txt': r.gdb}, info)
+                else:
+                    ctx.inconcl('watchdog %s' % desc)
+                return
+            inflight = 0
+            for k, st in enumerate(sts):
+                s1 = st['input'] == 'intact' and st['output'] == 'absent'
+                s2 = st['output'] == 'complete' and st['input'] in ('intact', 'missing')
+                if st['input'] == 'DAMAGED' or not (s1 or s2):
+                    if r.sig == signal.SIGKILL and st['input'] == 'intact':
+                        inflight += 1
+                        continue
+                    ctx.violation('unsafe-state:multi:%s:%s' % (mc['direction'], kind), 'operand %d of a multi-operand run ends unsafe: %s | %s' % (k, st, desc), None, info)
+                    return
+            if inflight > 1:
+                ctx.violation('unsafe-state:multi:several-partial', 'more than one operand with partial output after SIGKILL: %s' % desc, None, info)
+                return
+            # operands after the first one that is not complete must be untouched
+            seen_incomplete = False
+            for st in sts:
+                done = st['output'] == 'complete'
+                if seen_incomplete and st['output'] != 'absent' and r.rc not in (0, 4):
+                    ctx.violation('later-operand-touched:multi', 'an operand after the failing one was processed: %s' % desc, None, info)
+                    return
+                if not done:
+                    seen_incomplete = True
+            ctx.nt(('multi', mi, kind, pos, action, arg))
+            ctx.count('multi_operand_injections')
+        core.pmap(mone, mjobs)
+
     # signals from outside at seeded times
     outs = []
     for ci, c in enumerate(cases):
